@@ -121,6 +121,14 @@ theorem c02_extracted_constants :
   refine ⟨by decide, fun _ _ => rfl, by decide, by decide, by decide, by decide, by decide,
     by decide, by decide⟩
 
+/-- The statement that orders `previous` before it is written is a full sort on whole hashes
+    (`Ord for Hash` is byte-wise on all 32 bytes) — what `canon` models. A sort on a key derived
+    from only part of the hash (ties fall back to hash-set iteration order) does not pass. -/
+theorem c02_extracted_sort :
+    Extracted.C02.previousSortStmt = "previous.sort();" ∨
+    Extracted.C02.previousSortStmt = "previous.sort_unstable();" := by
+  decide
+
 /-! ### Non-vacuity: concrete validated headers meet the hypotheses -/
 
 /-- Node header, causal extensions with three `previous` hashes, body and backlink present. -/
